@@ -213,7 +213,7 @@ C("_BucketBase.minKey", cls=LEAF, params={"key": BOUND},
   },
   raises={"ValueError": {"none": "len(self._keys) == 0 if (key is _marker or key is None) else "
                                  "forall(0, len(self._keys), lambda j: self._keys[j] < to_key(key))"},
-          "TypeError": {}},
+          "TypeError": {"only_for_an_unusable_bound": "key is not _marker and key is not None and not key_ok(key)"}},
   modifies=[], props=["C02", "C09"])
 
 C("_BucketBase.maxKey", cls=LEAF, params={"key": BOUND},
@@ -226,7 +226,7 @@ C("_BucketBase.maxKey", cls=LEAF, params={"key": BOUND},
   },
   raises={"ValueError": {"none": "len(self._keys) == 0 if (key is _marker or key is None) else "
                                  "forall(0, len(self._keys), lambda j: self._keys[j] > to_key(key))"},
-          "TypeError": {}},
+          "TypeError": {"only_for_an_unusable_bound": "key is not _marker and key is not None and not key_ok(key)"}},
   modifies=[], props=["C02", "C09"])
 
 # --------------------------------------------------------------------------
